@@ -707,8 +707,15 @@ def check_frame(program, rep):
             calls = [e.sym.node for e in tr if e.kind == 'call'
                      and isinstance(e.sym.node, ast.Call)
                      and norm(e.sym.node.func) == f'{t}.process']
+            # extra keywords of the frame call may be passed on as they came
+            # (`**kwargs` of process() itself - empty for process(dt)); dt
+            # itself is bound by position, whatever the processor calls it
+            kwp = f.node.args.kwarg.arg if f.node.args.kwarg else None
+            extra_ok = all(k.arg is None and kwp is not None
+                           and norm(k.value) == kwp
+                           for k in (calls[0].keywords if calls else []))
             if len(calls) != 1 or [norm(a) for a in calls[0].args] != [dt] \
-                    or calls[0].keywords:
+                    or not extra_ok:
                 bad = bad or (it.node, 'a processor is not called exactly '
                               f'once with the dt given to process() '
                               f'({[norm(c) for c in calls]})')
